@@ -1,4 +1,5 @@
 import MLPE.Proofs.EngTasks
+import MLPE.Proofs.Budget
 import MLPE.Proofs.OneDemo
 
 /-!
@@ -317,5 +318,14 @@ example : ∃ s, runChoicesO demoOne init demoOneRun = some s ∧ Reach demoOne 
     C10_head_value_is_first_success demoOne demoOneVal demoOne_oneP demoOneVal_solution s hr 3 (by decide) v3 hv3 hne3
   have h32 : demoOneVal 3 = demoOneVal 2 := by decide
   rw [← h32]; exact a3.1
+
+
+/-- **contained failures are never delivered to a consumer as a value** (all programs, all schedules): no body call of any
+execution — whatever mix of one-ofs, switches and recurrent subgraphs, whoever stored the exception object — has an exception
+object as the value of a declared parameter (`Proofs/KwArgs.lean`: `_get_node_kwargs` fails the consumer instead) -/
+theorem C10_failure_object_is_never_an_argument (P : Program) (s : St) (log : List Obs) (h : Exec P s log)
+    (n : Node) (inv k : Nat) (kw : Kwargs) (hm : Obs.body n inv k kw ∈ log) (hn : (n == P.g.input) = false)
+    (a : String) (v : Val) (hv : (a, v) ∈ kw) (ha : a ≠ "additional_data") : v.isExc = false :=
+  (((budget_exec h).2 _ hm).2.2 hn).noExc a v hv ha
 
 end MLPE.Eng
